@@ -155,10 +155,16 @@ func lookupNNSDomainRecord(inv, nnsContract, domainName) (r, err)
   pure
   logged
 
+// (assumed environment bound: chain heights stay below 2^31 - the validity bounds computed from them cannot wrap)
 func (x blockchainMonitor) currentHeight() (r)
   trusted
   pure
   logged
+  ensures 0 <= r && r < 2147483648
+
+func newTransactionGroupMonitor(w) (r)
+  trusted
+  pure
 
 func (x transactionGroupMonitor) isPending() (r)
   trusted
@@ -186,4 +192,26 @@ func initDesignateNotaryRoleAsSignerTick(ctx, prm)
           xcalls("wallet.Account.SignHashable")[old(xcalls("wallet.Account.SignHashable")).len] == ev_wallet_Account_SignHashable(n, t)
           && xcalls("sharedTransactionData.unshiftChecksum")[old(xcalls("sharedTransactionData.unshiftChecksum")).len] == ev_sharedTransactionData_unshiftChecksum(x, d)
           && t.Nonce == x.nonce && t.ValidUntilBlock == x.validUntilBlock && len(t.Signers) > 0 && t.Signers[0].Account == x.sender
+
+// C13 (Notary bootstrap, one tick of the leading member; the variables kept between ticks are arbitrary on entry): the
+// leader sends at most one NNS transaction per tick, and which one is determined by what the lookup of the shared-data
+// record returned in this tick: when the record exists (the lookup succeeded) new shared data replace it through setRecord
+// at index 0 of the TXT records of the shared-data domain - never addRecord, which would leave the expired data in front.
+pure lookupErr(k Int) Any = cres2("lookupNNSDomainRecord", k)
+
+func initDesignateNotaryRoleAsLeaderTick(ctx, prm)
+  closure
+  wideint
+  // state kept between ticks: the signature threshold is the committee majority n - (n-1)/2 (never reassigned)
+  requires [C13] len(prm.committee) >= 0 && committeeMultiSigM == len(prm.committee) - (len(prm.committee) - 1) / 2
+  ensures [C13] xcalls("actor.Actor.SendCall").len <= old(xcalls("actor.Actor.SendCall")).len + 1
+  ensures [C13] isnil(lookupErr(old(xcalls("lookupNNSDomainRecord")).len)) && xcalls("actor.Actor.SendCall").len == old(xcalls("actor.Actor.SendCall")).len + 1 ==>
+        exists d Bytes :: xcalls("actor.Actor.SendCall")[old(xcalls("actor.Actor.SendCall")).len]
+          == ev_actor_Actor_SendCall(prm.nnsOnChainAddress, "setRecord", "designate-committee-notary-tx.bootstrap", 16, 0, d)
+  loop 0
+    invariant xcalls("actor.Actor.SendCall").len == old(xcalls("actor.Actor.SendCall")).len
+  loop 1
+    invariant 0 <= extraLen
+  loop 2
+    invariant 1 <= i
 @*/
